@@ -118,7 +118,44 @@ func runC13(c *CaseCtx) (res CaseResult) {
 		}
 	}
 	reps := tierReps(c.Tier, 2, 4)
+	inspect := c13Inspector(&s, &cf, hop, &res)
 	outs, _ := runScenario(c, s, r, reps, &res, func(in *Inst, o *Outcome) {
+		inspect(in, o)
+		if r.Intn(4) != 0 {
+			return
+		}
+		// the same target signature once more, its default options and those
+		// of an unrelated function being prefixes of ONE caller-owned list:
+		// what the other function is given must not show up in this error
+		list := make([]am.Arg, 0, 8)
+		list = append(list, am.FuncName("other"), am.FuncName("target"))
+		in.W.NextDefaults = list[:2]
+		tspec := s.Target
+		tB, err := in.W.Build(-30, tspec, r)
+		if err != nil {
+			return
+		}
+		in.W.NextDefaults = list[:1]
+		other, err := in.W.Build(-31, FuncSpec{In: []Label{{Type: 0}}, InForm: FormPos, OutForm: FormPos}, r)
+		if err != nil {
+			return
+		}
+		for k := 1; k <= 2; k++ {
+			y := Label{Name: "leak", Type: 0, Sub: "q"}
+			DoCall(in.W, other.Func, []am.Arg{InputArg(Label{Type: 0}, in.W.FreshInput(10+k, 800, Label{Type: 0})), InputArg(y, in.W.FreshInput(10+k, 801, y))})
+			o2 := DoCall(in.W, tB.Func, in.AllArgs(20+k, r))
+			res.Evals += 2
+			inspect(in, &o2)
+			res.obs("errors_inspected_after_foreign_call", 1)
+		}
+	})
+	_ = outs
+	res.Sample = sampleOf(s, outs)
+	return res
+}
+
+func c13Inspector(s *Scenario, cf *callFacts, hop []Label, res *CaseResult) func(in *Inst, o *Outcome) {
+	return func(in *Inst, o *Outcome) {
 		det := map[string]interface{}{"scenario": s.String(), "class": o.Class, "err": firstLine(errStr(o.Err))}
 		var ue *am.ErrArgumentUnsatisfied
 		if o.Err == nil || !errors.As(o.Err, &ue) {
@@ -196,9 +233,7 @@ func runC13(c *CaseCtx) (res CaseResult) {
 		}
 		res.obs("errors_inspected", 1)
 		res.obs("args_listed", int64(len(ue.Args)))
-	})
-	res.Sample = sampleOf(s, outs)
-	return res
+	}
 }
 
 // pickStructForm keeps form if it can carry the labels, else picks a struct form.
